@@ -43,8 +43,9 @@ def mk_sampler_obj(I, cls="SMCSampler", extra=None):
         if isinstance(lp, Arr):
             want = rowwise("PI", PI_ROW, s.f["x"])
             I2.path.prove(arr_eq_goal(lp, want), I2.oname("C17:attached log_prior is the prior of exactly these points", n), kind="call-site")
-        I2.path.event("user_log_likelihood", s, s.f["x"])
-        return rowwise("L", L_ROW, s.f["x"])
+        out = rowwise("L", L_ROW, s.f["x"])
+        I2.path.event("user_log_likelihood", s, s.f["x"], out)
+        return out
 
     def flow_log_prob(I2, a, k, n):
         x = a[1] if isinstance(a[0], Obj) else a[0]
@@ -309,6 +310,9 @@ class MiniPCNMutate(Contract):
         acc = s.f["history"].f["mcmc_acceptance"]
         return Pre(s, [parts, R(beta)], ghost={"s": s, "beta": beta, "n": n, "parts": parts, "acc_len0": acc.len})
 
+    def hooks(self, I, pre):
+        return {"samples:BaseSamples.array_to_namespace": a2ns_hook}
+
     def post(self, I, pre, r):
         p, g = I.path, pre.ghost
         q = self.qual
@@ -316,6 +320,7 @@ class MiniPCNMutate(Contract):
         if not (isinstance(r, Obj) and r.cls == "SMCSamples"):
             p.prove(z3.BoolVal(False), f"{q}:returns SMCSamples")
             return
+        likelihood_output_normalised(I, q, only_for=r)
         for nm, gl in aligned_goals(q, r):
             p.prove(gl, nm)
         p.prove(to_real(r.f["beta"]) == g["beta"], f"{q}:C10:result carries the temperature it was mutated at")
@@ -440,9 +445,28 @@ class DrawInitialSamples(DrawInitialSamplesModel):
         p.prove(to_int(g["s"].f["n_likelihood_evaluations"]) == to_int(g["evals0"]) + g["n"], f"{q}:C17:evaluation counter grows by the number of points evaluated")
 
 
+def a2ns_hook(I, info, bound, args, kwargs, n):
+    """records what is handed to BaseSamples.array_to_namespace (the conversion into the population's namespace and precision)"""
+    I.path.event("array_to_namespace", bound, args[0] if args else kwargs.get("x"))
+
+
+def likelihood_output_normalised(I, q, tag="", only_for=None):
+    """C15: whatever the user's likelihood returns (any namespace, any width - e.g. accumulated on the host in float64) is converted into the
+    population's namespace and precision before it is stored next to the coordinates"""
+    p = I.path
+    # only_for: the evaluations whose result is stored on that sample set (evaluations of the target inside the kernel are used, not stored)
+    outs = [e[3] for e in p.events if e[0] == "user_log_likelihood" and len(e) > 3 and (only_for is None or e[1] is only_for)]
+    conv = [e[2] for e in p.events if e[0] == "array_to_namespace"]
+    p.prove(z3.BoolVal(bool(outs) and all(any(o is c for c in conv) for o in outs)),
+            f"{q}:C15:what the user's likelihood returns is converted into the population's namespace and precision (array_to_namespace) before it is stored {tag}")
+
+
 class ImportanceSample(Contract):
     def must_return(self, shape):
         return True
+
+    def hooks(self, I, pre):
+        return {"samples:BaseSamples.array_to_namespace": a2ns_hook}
 
     qual = "samplers.importance:ImportanceSampler.sample"
     properties = ("C10", "C17", "C02", "C15")
@@ -474,6 +498,7 @@ class ImportanceSample(Contract):
         p.prove(to_int(s.f["n_likelihood_evaluations"]) == to_int(g["evals0"]) + g["n"], f"{q}:C17:evaluation counter grows by the number of points evaluated")
         p.prove(z3.BoolVal(isinstance(r.f.get("log_w"), Arr)), f"{q}:C02:weights computed for the returned set")
         p.prove(z3.BoolVal(dtype_carried(r.f.get("dtype"), s.f["dtype"])), f"{q}:C15:population built with the precision requested from the sampler")
+        likelihood_output_normalised(I, q)
         p.prove(z3.BoolVal(r.f.get("parameters") is s.f["parameters"]), f"{q}:parameters of the sampler")
 
 
